@@ -42,6 +42,10 @@ func (w *walletFilePbkdf2) decrypt(password []byte) (err error) {
 		return fmt.Errorf("invalid pbkdf2 wallet file: unsupported prf '%s'", w.Crypto.KDFParams.PRF)
 	}
 
+	if w.Crypto.KDFParams.DKLen != derivedKeyLen {
+		return fmt.Errorf("invalid pbkdf2 keystore: derived key length %d != %d", w.Crypto.KDFParams.DKLen, derivedKeyLen)
+	}
+
 	derivedKey := pbkdf2.Key(password, w.Crypto.KDFParams.Salt, w.Crypto.KDFParams.C, w.Crypto.KDFParams.DKLen, sha256.New)
 
 	w.privateKey, err = w.Crypto.decryptCommon(derivedKey)
